@@ -199,6 +199,20 @@ def oracle(p, r):
         want = expect.get(s)
         if want is not None and args != want[:len(args)]:
             fails.append(('not_once_in_source_order', {'stage': s, 'called_with': args, 'stage_input_sequence': want}))
+    # ds[i] applies the functions only to the examples that make up that one result, once each: in an
+    # indexable pipeline without index-driven stages the i-th step of an iteration does exactly that work
+    if 'slice' not in ops_of(p):
+        for i, glog, res in r['gets']:
+            if i < len(r['chunks']) and 'ok' in res:
+                need = [json.dumps(c, sort_keys=True) for c in r['chunks'][i][0]]
+                for c in glog:
+                    k = json.dumps(c, sort_keys=True)
+                    if k in need:
+                        need.remove(k)
+                    else:
+                        fails.append(('getitem_extra_call', {'index': i, 'calls_for_this_index': glog,
+                                                             'calls_of_iteration_step': r['chunks'][i][0]}))
+                        break
     return fails
 
 
